@@ -41,9 +41,19 @@ SIG_TUPLE = 'C12|reindex(ndarray old span, tuple label in new span)|broadcast-al
 
 
 # --------------------------------------------------------------------------- values
+NP_SCALARS = {'npf': 'f', 'npi': 'i', 'npb': 'b'}          # fill values given as NumPy scalars (np.float64 / np.int64 / np.bool_)
+
+
+def _norm(j):
+    return j if j is None or j[0] not in NP_SCALARS else [NP_SCALARS[j[0]], j[1]]
+
+
 def dec_pv(j):
     if j is None:
         return None
+    if j[0] in NP_SCALARS:
+        import numpy as np
+        return {'npf': np.float64, 'npi': np.int64, 'npb': np.bool_}[j[0]](j[1])
     k = j[0]
     if k == 'b':
         return bool(j[1])
@@ -69,6 +79,7 @@ def c_fl(x):
 
 
 def c_pv(j):
+    j = _norm(j)
     if j is None:
         return 'PNone'
     k = j[0]
@@ -166,7 +177,8 @@ def c_cells_dt(cells, dt):
 
 
 # --------------------------------------------------------------------------- implementation side
-NP_DTYPE = {'float': float, 'int': int, 'bool': bool, 'str': str}
+NP_DTYPE = {'float': float, 'int': int, 'bool': bool, 'str': str, 'i32': 'int32', 'u8': 'uint8', 'f32': 'float32'}
+ORACLE_ONLY_DTYPES = ('i32', 'u8', 'f32')          # dtypes the Coq model has no tag for: direct oracle only
 
 
 def _classes():
@@ -249,14 +261,35 @@ def _snapshot(c, objmap):
     return out
 
 
+PUBLIC_ATTRS = ('strict', 'dtype', 'names', 'lags', 'leads', 'endogenous', 'exogenous', 'parameters', 'errors', 'check', 'engine', 'aliases')
+
+
+def _canon_attr(v):
+    if isinstance(v, (list, tuple)):
+        return [_canon_attr(x) for x in v]
+    if isinstance(v, dict):
+        return sorted([str(k), _canon_attr(x)] for k, x in v.items())
+    if isinstance(v, (bool, int, str)) or v is None:
+        return v
+    if isinstance(v, type):
+        return v.__name__
+    return str(v)
+
+
 def _attrs(c):
+    """The object's attributes by PUBLIC name and VALUE (no registry order, no reprs that could carry addresses)."""
     out = []
-    for k in c.__dict__['_attributes']:
-        if k in ('span', 'index', '_attributes'):
-            continue
-        v = c.__dict__.get(k)
-        out.append([k, repr(v)])
+    for k in PUBLIC_ATTRS:
+        try:
+            out.append([k, _canon_attr(getattr(c, k))])
+        except AttributeError:
+            pass
     return out
+
+
+def _meta(c):
+    """What else makes up the object besides its series: span labels (in order), variable names, attributes."""
+    return {'span': [lc.enc_label(p) for p in c.span], 'index': list(c.index), 'attrs': _attrs(c)}
 
 
 def _fresh_fsic():
@@ -296,6 +329,7 @@ def impl(case):
     objmap = {}
     obs = {}
     before = _snapshot(c, objmap)
+    meta_before = _meta(c)
     obs['old_vars'] = before
     obs['old_attrs'] = _attrs(c)
     if lc.is_pandas(case['old']):
@@ -356,7 +390,7 @@ def impl(case):
                     res = ['raise', type(e).__name__]
                 obs['assign_casts'].append([str(dt), call[3][1], res])
     after = _snapshot(c, objmap)
-    obs['orig_unchanged'] = (after == before)
+    obs['orig_unchanged'] = (after == before) and _meta(c) == meta_before          # also when the call raised
     if r is not None:
         obs['same_class'] = type(r) is type(c)
         obs['span_is_arg'] = r.span is new
@@ -381,10 +415,8 @@ def impl(case):
                 ids = {id(x) for x in a.tolist() if x is not None and not isinstance(x, (int, float, str, bool))}
                 if any(id(x) in ids for x in r[name].tolist()):
                     shared.append('object cells of %s' % name)
-        for k in c.__dict__['_attributes']:
-            if k in ('span',):
-                continue
-            v, w = c.__dict__.get(k), r.__dict__.get(k)
+        for k in PUBLIC_ATTRS:
+            v, w = getattr(c, k, None), getattr(r, k, None)
             if v is w and isinstance(v, (list, dict, set, np.ndarray)):
                 shared.append('attribute %s' % k)
         if r.span is c.span:
@@ -400,11 +432,15 @@ def impl(case):
                 for x in b.tolist():
                     if isinstance(x, list):
                         x.append('#mutated#')          # a shared cell object would carry this into the original
-        for k in r.__dict__['_attributes']:
-            v = r.__dict__.get(k)
-            if isinstance(v, list) and k not in ('_attributes', 'index', 'span'):
+        for k in PUBLIC_ATTRS:
+            v = getattr(r, k, None)
+            if isinstance(v, list):
                 v.append('#mutated#')
-        obs['orig_unchanged_after_mutation'] = (_snapshot(c, objmap) == before and _attrs(c) == obs['old_attrs'])
+            elif isinstance(v, dict):
+                v['#mutated#'] = 1
+        if isinstance(r.span, list):
+            r.span.append('#mutated#')
+        obs['orig_unchanged_after_mutation'] = (_snapshot(c, objmap) == before and _meta(c) == meta_before)
     return obs
 
 
@@ -511,6 +547,8 @@ def correspond(cases, obs, tag, tier):
         if o.get('timeout') or lc.unrepresentable(o.get('pd', [])):
             bad.append(i)
             continue
+        if any(v.get('dtype') in ORACLE_ONLY_DTYPES for v in c['vars']):
+            continue                  # oracle-only
         t = c_parts(c, o)
         if t is None:
             bad.append(i)
@@ -556,6 +594,14 @@ def explain(case, obs):
 # --------------------------------------------------------------------------- the property, directly
 def _expected_fill(dt, pv, given):
     """The cell a new period must hold, or 'skip' when the fill value is not a value of the dtype (the statement is silent)."""
+    pv = _norm(pv)
+    if dt == 'float32':
+        dt = 'float64'          # same statement; the palette's float fills (halves, nan, inf) are float32 values
+    if dt in ('int32', 'uint8'):
+        lo, hi = (-2 ** 31, 2 ** 31) if dt == 'int32' else (0, 256)
+        if pv is None:
+            return ['i', 0]
+        return ['i', pv[1]] if pv[0] == 'i' and lo <= pv[1] < hi else 'skip'
     if pv is None:
         if dt == 'float64':
             return ['f', 'nan']
@@ -648,7 +694,10 @@ def oracle(case, obs):
         # an exception is legitimate only when some fill value cannot be converted to its variable's dtype,
         # or (duplicate / unhashable-comparison corner of the old span) the lookup itself fails
         convertible = all(fill_of(n, dt) != 'skip' for n, dt, _ in obs['old_vars'])
-        if convertible and not dup_old:
+        # documented exclusion: a NumPy-array old span with a REPEATED label raises KeyError when that label is asked for (the fallback
+        # lookup refuses several matches); list / tuple / range old spans never raise for that reason
+        excluded = dup_old and case['old']['type'] == 'nparr' and any(old_labs.count(p) > 1 for p in new_labs)
+        if convertible and not excluded:
             bad(site, 'unexpected-' + obs['out'][1], 'reindex raised %s although every fill value fits its variable' % obs['out'][1])
         return fails
     if not obs['same_class']:
@@ -665,10 +714,10 @@ def oracle(case, obs):
         if len(newd) != len(new_labs):
             bad(site, 'length', '%s has %d elements for %d periods' % (name, len(newd), len(new_labs)))
             continue
-        if dup_old:
-            continue
         fill = fill_of(name, dt)
         for i, p in enumerate(new_labs):
+            if old_labs.count(p) > 1:
+                continue          # a label repeated in the old span: "its old value" is not defined by the statement
             if p in old_labs:
                 exp = oldd[old_labs.index(p)]
                 if not _same_cell(newd[i], exp):
@@ -907,6 +956,32 @@ def gen(rng, tier):
                 cases.append({'cls': cls, 'old': fams[0][2](n_old), 'new': {'type': 'list', 'labels': [['i', 2000 + i] for i in new_labels]}, 'fill_value': fv, 'fills': [],
                               'strict': None, 'obj_strict': False,
                               'vars': [{'name': 'O', 'dtype': 'obj', 'data': [['i', 7], None, ['s', 'x']]}] + STD_VARS[:1]})
+    # other widths of the same kinds (np.issubdtype must accept them): int32, uint8, float32 — oracle-only
+    wide = [{'name': 'J', 'dtype': 'i32', 'data': [['i', 3], ['i', -4], ['i', 0], ['i', 6]]}, {'name': 'U', 'dtype': 'u8', 'data': [['i', 3], ['i', 4], ['i', 0], ['i', 255]]},
+            {'name': 'G', 'dtype': 'f32', 'data': [['f', 1.5], ['f', -2.0], ['f', 'nan'], ['f', 4.0]]}]
+    for cls in ('VC', 'BM'):
+        for n_old, new_labels in itertools.product((2, 3), ([0, 1, 2, 3], [2, 0], [3, 3])):
+            for fv, fl in ((None, []), (['i', 7], []), (None, [['J', ['i', -3]], ['U', ['i', 9]], ['G', ['f', 2.5]]]), (['f', 2.5], [['J', ['i', 5]], ['U', ['i', 1]]])):
+                if cls == 'BM' and fv is not None and fv[0] == 'i':
+                    continue
+                cases.append({'cls': cls, 'old': fams[0][2](n_old), 'new': {'type': 'list', 'labels': [['i', 2000 + i] for i in new_labels]}, 'vars': wide, 'solved': 1,
+                              'fill_value': fv if cls == 'VC' or fv is None else None, 'fills': fl, 'strict': None, 'obj_strict': False})
+    # fill values given as NumPy scalars
+    for cls in ('VC', 'BM'):
+        for fl in ([['F', ['npf', 2.5]], ['I', ['npi', 7]], ['B', ['npb', True]]], [['F', ['npi', 7]], ['I', ['npf', 2.0]], ['S', ['npi', 12]]], [['B', ['npb', False]], ['I', ['npb', True]]]):
+            for n_old, n_new in ((2, 3), (1, 3)):
+                cases.append({'cls': cls, 'old': fams[0][2](n_old), 'new': fams[0][2](n_new), 'vars': STD_VARS, 'solved': 1, 'fill_value': None, 'fills': fl,
+                              'strict': None, 'obj_strict': False})
+        cases.append({'cls': 'VC', 'old': fams[0][2](2), 'new': fams[0][2](3), 'vars': STD_VARS[:1], 'solved': 0, 'fill_value': ['npf', -0.5], 'fills': [], 'strict': None, 'obj_strict': False})
+    # longer spans (nothing may depend on the spans being short): shifted, reversed, interleaved
+    long_vars = [{'name': 'F', 'dtype': 'float', 'data': [['f', 0.5 * i - 2.0] for i in range(12)]}, {'name': 'I', 'dtype': 'int', 'data': [['i', 3 * i - 7] for i in range(12)]}]
+    for typ, mklab in (('list', lambda i: ['i', 2000 + i]), ('list', lambda i: ['s', 'q%02d' % i]), ('nparr', lambda i: ['i', 5 + i]), ('pdindex', lambda i: ['per', 'Y', PER_Y0 + i])):
+        big = [mklab(i) for i in range(14)]
+        old_spec = {'type': typ, 'labels': big[2:12]}
+        for new_labels in (big[0:12], big[4:14], list(reversed(big[2:12])), big[2:12:2] + big[3:12:2], big[5:8]):
+            for cls in ('VC', 'BM'):
+                cases.append({'cls': cls, 'old': old_spec, 'new': {'type': typ if typ != 'pdindex' else 'list', 'labels': new_labels}, 'vars': long_vars, 'solved': 3,
+                              'fill_value': None, 'fills': [], 'strict': None, 'obj_strict': False})
     # linkers: reindex is documented as not implemented (NotImplementedError whatever the arguments)
     for n_old, n_new in ((2, 3), (3, 2), (0, 1)):
         for fv, fl in ((None, []), (['f', 2.5], []), (None, [['status', ['s', 'F']]])):
